@@ -290,3 +290,19 @@ def run_threads(traced, fns, schedule=None, first=0, max_steps=20000):
             gc.enable()
     errors = [t.error for t in sched.threads]
     return results, errors, sched.steps, sched.abort_reason
+
+
+def fresh_mido():
+    """A freshly imported, private copy of the mido package (module-level lazily initialised state is back to
+    "never used"); the process-wide modules stay as they are."""
+    import sys
+    saved = {k: v for k, v in sys.modules.items() if k == 'mido' or k.startswith('mido.')}
+    for k in saved:
+        del sys.modules[k]
+    try:
+        import mido as fresh
+        return fresh
+    finally:
+        for k in [k for k in sys.modules if k == 'mido' or k.startswith('mido.')]:
+            del sys.modules[k]
+        sys.modules.update(saved)
